@@ -45,16 +45,44 @@ structure BlockView {V} (d : Dict V) (m : Assoc V) : Prop where
   noneBelow : ∀ k, d.locateKey k = none → ∀ e ∈ m, lexLt e.1 k = true
   locLt : ∀ k f, d.locateKey k = some f → f < d.nb
   nonempty : d.single = false → ∀ b ∈ d.blockList, b.entries ≠ []
+  locOrd : ∀ o, d.locateOrd o < d.nb ∧
+    (∀ b, d.blockList[d.locateOrd o]? = some b → b.firstOrd ≤ o) ∧
+    (∀ b', d.blockList[d.locateOrd o + 1]? = some b' → o < b'.firstOrd)
 
 theorem build_blocks_eq {V} (L : Nat) (m : Assoc V) :
     (build L m).blocks = mkBlocks 0 (blocksOf (fun e : Key × V => e.1) L m)
       (sepsOf (blocksOf (fun e : Key × V => e.1) L m)) := rfl
+
+theorem build_locOrd {V} (L : Nat) (m : Assoc V)
+    (hat : ∀ i, (build L m).blockAt i = (build L m).blockList[i]?)
+    (hnb : (build L m).nb = (build L m).blockList.length) (o : Nat) :
+    (build L m).locateOrd o < (build L m).nb ∧
+    (∀ b, (build L m).blockList[(build L m).locateOrd o]? = some b → b.firstOrd ≤ o) ∧
+    (∀ b', (build L m).blockList[(build L m).locateOrd o + 1]? = some b' → o < b'.firstOrd) := by
+  obtain ⟨h1, _, h3, h4⟩ := openForOrd_spec L m o
+  rw [hat] at h4
+  refine ⟨?_, ?_, ?_⟩
+  · rw [hnb]; exact (List.getElem?_eq_some_iff.mp h4).1
+  · intro b hb; rw [h4] at hb; cases hb; exact h1
+  · intro b' hb'
+    have hs : ((build L m).blockAt ((build L m).locateOrd o + 1)).isSome = true := by rw [hat, hb']; rfl
+    have := h3 hs
+    simpa [Dict.openForOrd, hat, hb'] using this
 
 theorem build_view {V} (L : Nat) (m : Assoc V) (hs : SortedMap m) : BlockView (build L m) m := by
   have hfl : (blocksOf (fun e : Key × V => e.1) L m).flatten = m := blocksOf_flatten _ L m
   have hent := mkBlocks_entries (blocksOf (fun e : Key × V => e.1) L m) 0
   have hflatAll : flatE (build L m).blocks = m := by
     unfold flatE; rw [build_blocks_eq, hent, hfl]
+  have hatG : ∀ i, (build L m).blockAt i = (build L m).blockList[i]? := by
+    intro i
+    unfold Dict.blockAt Dict.blockList
+    by_cases h : (build L m).single = true
+    · simp only [h, if_true]; cases i <;> simp
+    · simp [h]
+  have hnbG : (build L m).nb = (build L m).blockList.length := by
+    unfold Dict.nb Dict.blockList
+    by_cases h : (build L m).single = true <;> simp [h]
   by_cases hsingle : (build L m).single = true
   · -- zero or one block
     have hlen : (build L m).blocks.length ≤ 1 := by simpa [Dict.single] using hsingle
@@ -69,7 +97,7 @@ theorem build_view {V} (L : Nat) (m : Assoc V) (hs : SortedMap m) : BlockView (b
       | [], _ => simp [mkBlocks, flatE] at hflatAll ⊢; exact hflatAll
       | [b0], _ => simp [mkBlocks, sepsOf, flatE] at hflatAll ⊢; exact hflatAll
       | _ :: _ :: _, h => simp at h
-    refine ⟨?_, ?_, ?_, ?_, ?_, ?_, ?_, ?_, ?_, ?_⟩
+    refine ⟨?_, ?_, ?_, ?_, ?_, ?_, ?_, ?_, ?_, ?_, build_locOrd L m hatG hnbG⟩
     · rw [hBL]; simpa [flatE] using hhead.1
     · intro i b hb
       rw [hBL] at hb ⊢
@@ -103,7 +131,7 @@ theorem build_view {V} (L : Nat) (m : Assoc V) (hs : SortedMap m) : BlockView (b
       simp only [Dict.locateKey, hsingle', Bool.false_eq_true, if_false] at hf
       exact findIdx?_lt _ _ f hf
     refine ⟨by rw [hBL]; exact hflatAll, ?_, by rw [hBL]; exact hat, by simp [Dict.nb, hsingle', hBL],
-      ?_, ?_, ?_, ?_, ?_, ?_⟩
+      ?_, ?_, ?_, ?_, ?_, ?_, build_locOrd L m hatG hnbG⟩
     · intro i b hb
       rw [hBL] at hb ⊢
       rw [build_blocks_eq] at hb ⊢
